@@ -174,6 +174,8 @@ MESHES = {
     # three quads then two triangles: the short rows (with padding) are far from node 0
     'qqqtt': ([(i, 0) for i in range(5)] + [(i, 1) for i in range(5)],
               [[0, 1, 6, 5], [1, 2, 7, 6], [2, 3, 8, 7], [3, 4, 9], [3, 9, 8]]),
+    # strip of four quads: as many faces as nodes per face (a square connectivity table)
+    'qqqq': ([(i, 0) for i in range(5)] + [(i, 1) for i in range(5)], [[i, i + 1, i + 6, i + 5] for i in range(4)]),
     # 4 x 4 block of quads: 25 nodes (node numbers squared no longer fit in small integer types), 40 edges
     'grid4': ([(i, j) for j in range(5) for i in range(5)],
               [[j * 5 + i, j * 5 + i + 1, (j + 1) * 5 + i + 1, (j + 1) * 5 + i] for j in range(4) for i in range(4)]),
